@@ -23,7 +23,8 @@ def repr_options(draw, indirect=None):
     if indirect is True or (indirect is None and draw(st.booleans())):
         argv.append("-findirect-start-ptr")
     if draw(st.integers(0, 2)) == 0:
-        argv += ["--collapsed-range-length", str(draw(st.sampled_from([0, 1, 2, 4, 6])))]
+        # (30 / 300: longer than a run of digits / than any run, i.e. collapsing effectively off for those)
+        argv += ["--collapsed-range-length", str(draw(st.sampled_from([0, 1, 2, 4, 6, 12, 30, 300])))]
         argv.append("-fcollapse-transition-ranges")
     return argv
 
